@@ -244,28 +244,33 @@ def run_tie(pid, families, tier, seed, mharness, extra_ops_files=()):
     env = dict(GOENV, GOMEMLIMIT="8GiB")
     remaining = [l.rstrip("\n") for l in open(opsf) if l.strip() and not l.startswith("#")]
     restarts = 0
+    CHUNK = 4000     # ops handed to one harness process: a death forfeits (and re-sends) at most the chunk's remainder
+    pos = 0
     with open(casesf, "w") as fout:
-        while remaining:
-            p = subprocess.run([mharness, "eval"], input="\n".join(remaining) + "\n", stdout=subprocess.PIPE,
+        while pos < len(remaining):
+            chunk = remaining[pos:pos + CHUNK]
+            p = subprocess.run([mharness, "eval"], input="\n".join(chunk) + "\n", stdout=subprocess.PIPE,
                                stderr=subprocess.PIPE, env=env, text=True, errors="replace")
             lines = p.stdout.split("\n")
             if lines and lines[-1] == "":
                 lines.pop()
             elif lines:
                 lines.pop()  # incomplete last line
+            lines = lines[:len(chunk)]
             for l in lines:
                 fout.write(l + "\n")
-            if len(lines) >= len(remaining):
-                break
-            culprit = remaining[len(lines)]
+            pos += len(lines)
+            if len(lines) >= len(chunk):
+                continue
+            culprit = chunk[len(lines)]
             err = p.stderr[-600:]
             kind = "exit" if (p.returncode == 1 and "mlr" in err and "goroutine" not in err and "panic" not in err) else "crash"
             fout.write(culprit + " | " + kind + "\n")
             if kind == "crash" and crash is None:
                 crash = {"op": culprit, "stderr": err}
-            remaining = remaining[len(lines) + 1:]
+            pos += 1
             restarts += 1
-            if restarts > 2000:
+            if restarts > 40000:
                 raise RuntimeError("too many harness restarts")
     mdriver = os.path.join(LEAN, ".lake", "build", "bin", "mdriver")
     with open(casesf) as fin, open(verdf, "w") as fout:
